@@ -31,3 +31,37 @@ func verifHarness_C06_writemessage(shape int, unset int) {
 	verifAssert(verifEqBytes(rec.buf, exp), "C06/c/frame-writer-message-is-the-signed-spec-frame")
 	verifReach("C06/c")
 }
+
+// (c'') the key is read when a frame is signed: an application that rotates its key by overwriting the bytes of the
+// V2Key it configured (same pointer) gets the second frame signed with the new bytes, the first with the old ones
+func verifHarness_C06_key_rotated_in_place(shape int) {
+	defer verifPatchClock()()
+	keyb1 := verifNondetBytes(32)
+	keyb2 := verifNondetBytes(32)
+	key := new(V2Key)
+	copy(key[:], keyb1)
+	sys, comp, link := verifNondetU8(), verifNondetU8(), verifNondetU8()
+	verifAssume(comp != 0)
+	rec := &verifRecWriter{}
+	w := &Writer{ByteWriter: rec, DialectRW: verifDialectRW(), OutVersion: V2, OutSystemID: sys, OutComponentID: comp,
+		OutSignatureLinkID: link, OutKey: key}
+	verifAssert(w.Initialize() == nil, "C06/c2/init")
+	msg, full, spec := VerifMsg(shape, 2)
+	payload := VerifTruncate(full)
+	verifAssert(w.WriteMessage(msg) == nil, "C06/c2/write-ok")
+	ts1 := verifClockLast() / 10000
+	ck1 := verifSpecChecksumV2(1, 0, 0, sys, comp, spec.ID(), payload, spec.CRCExtra())
+	exp1 := verifSpecV2(1, 0, 0, sys, comp, spec.ID(), payload, ck1, true, link, ts1,
+		verifSpecSignature(keyb1, 1, 0, 0, sys, comp, spec.ID(), payload, ck1, link, ts1))
+	verifAssert(verifEqBytes(rec.buf, exp1), "C06/c2/first-frame-signed-with-the-first-key")
+	copy(key[:], keyb2)
+	verifAssert(w.WriteMessage(msg) == nil, "C06/c2/write-ok")
+	ts2 := verifClockLast() / 10000
+	ck2 := verifSpecChecksumV2(1, 0, 1, sys, comp, spec.ID(), payload, spec.CRCExtra())
+	exp2 := verifSpecV2(1, 0, 1, sys, comp, spec.ID(), payload, ck2, true, link, ts2,
+		verifSpecSignature(keyb2, 1, 0, 1, sys, comp, spec.ID(), payload, ck2, link, ts2))
+	if len(rec.buf) >= len(exp1) {
+		verifAssert(verifEqBytes(rec.buf[len(exp1):], exp2), "C06/c2/second-frame-signed-with-the-bytes-the-key-holds-now")
+	}
+	verifReach("C06/c2")
+}
